@@ -7,12 +7,16 @@ from ..sym import all_close
 from .c01 import built, point, bind, shape_of
 
 
-def _cmp(c, got, ref, label):
-    """compare a returned array with a reference nested list; a (n,1)/(1,n) reference may come back raveled"""
+def _cmp(c, got, ref, label, strict=False, shape=None):
+    """compare a returned array with a reference nested list.  Matrix-valued evaluators (strict=True: rows = states or
+    events, columns = states / parameters) must come back with exactly the documented 2-d shape, also when a
+    dimension is 1 (one state, one parameter, one event); only the symbolic getters' flattened forms are re-shaped."""
     ref = np.array(ref, dtype=object)
+    if shape is not None:
+        ref = ref.reshape(shape)
     got = np.asarray(got, dtype=object)
     if got.shape != ref.shape:
-        if 1 in ref.shape and got.shape == (ref.size,):
+        if not strict and 1 in ref.shape and got.shape == (ref.size,):
             ref = ref.ravel()
         else:
             c.prove(False, label + " [shape %s vs %s]" % (got.shape, ref.shape))
@@ -42,11 +46,11 @@ def deriv_unit(spec):
             _cmp(c, np.array(s2z.smat(m.get_grad_eqn(), env), dtype=object).reshape(nS, nP), G_ref, "get_grad_eqn == dF/dtheta")
             _cmp(c, np.array(s2z.smat(m.get_grad_jacobian_eqn(), env), dtype=object).reshape(nS * nP, nS), GJ_ref, "get_grad_jacobian_eqn == d2F/dtheta dx (row k*nS+i)")
         # numeric evaluators
-        _cmp(c, m.jacobian(x, t), J_ref, "jacobian(x,t) == dF/dx")
-        _cmp(c, m.diff_jacobian(x, t), DJ_ref, "diff_jacobian(x,t) == d2F/dx2")
+        _cmp(c, m.jacobian(x, t), J_ref, "jacobian(x,t) == dF/dx", strict=True, shape=(nS, nS))
+        _cmp(c, m.diff_jacobian(x, t), DJ_ref, "diff_jacobian(x,t) == d2F/dx2", strict=True, shape=(nS * nS, nS))
         if nP:
-            _cmp(c, m.grad(x, t), G_ref, "grad(x,t) == dF/dtheta")
-            _cmp(c, m.grad_jacobian(x, t), GJ_ref, "grad_jacobian(x,t) == d2F/dtheta dx")
+            _cmp(c, m.grad(x, t), G_ref, "grad(x,t) == dF/dtheta", strict=True, shape=(nS, nP))
+            _cmp(c, m.grad_jacobian(x, t), GJ_ref, "grad_jacobian(x,t) == d2F/dtheta dx", strict=True, shape=(nS * nP, nS))
         if nE:
             a = spec.rates()
             V = spec.V()
@@ -78,7 +82,8 @@ class C03(Check):
                    "produced by an independent differentiator applied to the oracle right-hand side; z3 proves equality for all (x,t,theta) "
                    "away from zeros of denominators.  Asymmetric (states, params) sizes so that a transposed or mis-strided layout cannot hide.")
     assumptions = ["floats as reals; denominators non-zero", "exp/log/sin/cos as uninterpreted functions with solver-proved law instances",
-                   "a (n x 1)/(1 x n) result may be returned raveled (compileExprAndFormat's 'vec' shaping) -- values compared in order"]
+                   "the four derivative evaluators (jacobian, grad, diff_jacobian, grad_jacobian) must have exactly the documented 2-d shape (also with one state or one parameter); the rate-change statistics may come back raveled when a dimension is 1 (values compared in order); "
+                   "only the symbolic getters' sympy matrices are re-shaped before the comparison"]
 
     def units(self, tier, seed):
         fam = expr.F0()
